@@ -272,3 +272,114 @@ pub fn dump(rng: &mut Rng, count: u64, emit: Emit) {
         emit(req, result);
     }
 }
+
+/// C18: the same program under all 32 subsets of the output options; the states must not depend on them,
+/// and the -d table must list the values the wires really hold
+pub fn options(rng: &mut Rng, count: u64, emit: Emit) {
+    use std::fmt::Write;
+    for _ in 0..count {
+        let profile = *rng.pick(&[Profile::Dag, Profile::Banks, Profile::RegFile, Profile::Memory, Profile::Status]);
+        let g = proggen::program(rng, profile);
+        let text = proggen::render_program(&g.stmts);
+        let base = run_program(&text, g.cycles, &g.mem, &format!("(tags options) (text {})", sexp_escape(&text)));
+        let mut result = base.result.clone();
+        if base.accepted {
+            let contents = hclrs::FileContents::new_from_data(hclrs::verif_hooks::y86_preamble(), &text, "t.hcl");
+            // a sample of the 32 subsets: always the full set, the empty set and 6 random ones
+            let mut subsets: Vec<u32> = vec![0, 31];
+            for _ in 0..6 { subsets.push(rng.below(32) as u32); }
+            for sub in subsets {
+                let program = match hclrs::parse_y86_hcl(&contents) { Ok(p) => p, Err(_) => { result = String::from("OPTIONS-DIFF second build rejected"); break; } };
+                let constants: Vec<String> = program.verif_constants().iter().map(|c| c.0.clone()).collect();
+                let mut rp = hclrs::RunningProgram::new_y86(program);
+                rp.verif_set_memory(&g.mem);
+                let mut o = hclrs::RunOptions::default();
+                if sub & 1 != 0 { o.set_quiet(); }
+                if sub & 2 != 0 { o.set_debug(); }
+                if sub & 4 != 0 { o.set_test(); }
+                if sub & 8 != 0 { o.set_no_group_wire_values(); }
+                if sub & 16 != 0 { o.set_trace_assignments(); }
+                rp.set_options(o);
+                let mut states = String::from("ok");
+                let mut fin = String::from("ok");
+                for _ in 0..g.cycles {
+                    let mut out: Vec<u8> = Vec::new();
+                    // values as they are just before the clock edge are what the table shows: recompute from a twin
+                    match rp.step_with_output(&mut out) {
+                        Ok(()) => {
+                            write!(states, " {}", crate::progrun::state_string(&rp)).unwrap();
+                            if sub & 2 != 0 {
+                                // every row "name  0xVALUE" of the table: the name must be a non-constant wire, listed once
+                                let textout = String::from_utf8_lossy(&out).into_owned();
+                                let mut seen = std::collections::BTreeSet::new();
+                                for line in textout.lines() {
+                                    let parts: Vec<&str> = line.split_whitespace().collect();
+                                    if parts.len() == 2 && parts[1].starts_with("0x") && !line.contains(" set to ") {
+                                        if parts[0] == "Wire" { continue; }
+                                        if !seen.insert(parts[0].to_string()) { fin = format!("TABLE-DUPLICATE {}", parts[0]); }
+                                        if constants.iter().any(|c| c == parts[0]) { fin = format!("TABLE-LISTS-CONSTANT {}", parts[0]); }
+                                    }
+                                }
+                            }
+                        }
+                        Err(e) => { fin = crate::progrun::diag_string(&hclrs::verif_hooks::error_summary(&e)); break; }
+                    }
+                }
+                write!(states, " end={}", fin).unwrap();
+                if states != base.result {
+                    result = format!("OPTIONS-DIFF subset {} gives {} instead of {}", sub, &states[..states.len().min(200)], &base.result[..base.result.len().min(200)]);
+                    break;
+                }
+            }
+        }
+        match base.request {
+            Some(req) => emit(req, result),
+            None => emit(format!("(noparse {})", sexp_escape(&text)), result),
+        }
+    }
+}
+
+/// C18: the `-d` wire table of every cycle, grouped and ungrouped
+pub fn table(rng: &mut Rng, count: u64, emit: Emit) {
+    use std::fmt::Write;
+    for _ in 0..count {
+        let profile = *rng.pick(&[Profile::Dag, Profile::Banks, Profile::RegFile, Profile::Memory]);
+        let g = proggen::program(rng, profile);
+        let text = proggen::render_program(&g.stmts);
+        let grouped = rng.chance(2, 3);
+        let full = format!("{}{}", hclrs::verif_hooks::y86_preamble(), text);
+        let sexp = match hclrs::verif_hooks::parse_statements(&full) { Ok(s) => s, Err(_) => { emit(format!("(noparse {})", sexp_escape(&text)), String::from("noparse")); continue; } };
+        let contents = hclrs::FileContents::new_from_data(hclrs::verif_hooks::y86_preamble(), &text, "t.hcl");
+        let result = match hclrs::parse_y86_hcl(&contents) {
+            Err(e) => format!("rej {}", crate::progrun::diag_string(&hclrs::verif_hooks::error_summary(&e))),
+            Ok(program) => {
+                let mut rp = hclrs::RunningProgram::new_y86(program);
+                rp.verif_set_memory(&g.mem);
+                let mut o = hclrs::RunOptions::default();
+                o.set_debug();
+                if !grouped { o.set_no_group_wire_values(); }
+                rp.set_options(o);
+                let mut all = String::new();
+                let mut fin = String::from("ok");
+                for _ in 0..g.cycles {
+                    let mut out: Vec<u8> = Vec::new();
+                    match rp.step_with_output(&mut out) {
+                        Ok(()) => {
+                            let t = String::from_utf8_lossy(&out).into_owned();
+                            let start = t.find("Values of").unwrap_or(t.len());
+                            all.push_str(&t[start..]);
+                            all.push_str("=====\n");
+                        }
+                        Err(e) => { fin = crate::progrun::diag_string(&hclrs::verif_hooks::error_summary(&e)); break; }
+                    }
+                }
+                format!("{}end={}", all, fin)
+            }
+        };
+        let mut memf = String::from("(mem");
+        for (a, b) in &g.mem { write!(memf, " ({} {})", a, b).unwrap(); }
+        memf.push(')');
+        emit(format!("(table {} {} (cycles {}) (grouped {}) {} (text {}) (stmts {}))", crate::progrun::flags_sexp(), crate::progrun::cls_sexp(&text),
+                     g.cycles, if grouped { 1 } else { 0 }, memf, sexp_escape(&text), sexp), result);
+    }
+}
